@@ -174,6 +174,9 @@ func genGraph(r *rand.Rand, id string, n int) Case {
 			for k := r.Intn(4); k > 0; k-- {
 				j := r.Intn(nc)
 				cc := MCall{Pkg: []string{"p", "q.r"}[j%2], Cls: name(j), Fn: "m0"}
+				if j == 0 { // K0 also has two methods whose names differ only in case: a case-blind sort ties them
+					cc.Fn = []string{"m0", "getURL", "getUrl"}[r.Intn(3)]
+				}
 				fn.Calls = append(fn.Calls, cc)
 				if r.Intn(4) == 0 {
 					fn.Calls = append(fn.Calls, cc)
@@ -181,8 +184,13 @@ func genGraph(r *rand.Rand, id string, n int) Case {
 			}
 			cl.Fns = append(cl.Fns, fn)
 		}
+		if i == 0 {
+			cl.Fns = append(cl.Fns, MFn{Name: "getURL", Ret: "void", Params: []string{}, Calls: []MCall{}}, MFn{Name: "getUrl", Ret: "void", Params: []string{}, Calls: []MCall{}})
+		}
 		c.Model = append(c.Model, cl)
 	}
+	// both case variants are called, so both are rows of the reference-count listing
+	c.Model[1].Fns[0].Calls = append(c.Model[1].Fns[0].Calls, MCall{Pkg: "p", Cls: "K0", Fn: "getURL"}, MCall{Pkg: "p", Cls: "K0", Fn: "getUrl"})
 	c.Roots = []string{"p.K0.m0", "q.r.K1.m0"}
 	return c
 }
